@@ -90,6 +90,9 @@ def annotation_kind(ann):
             return "hourly"
         if issubclass(ann, ExplainableQuantity):
             return "quantity"
+        from efootprint.abstract_modeling_classes.source_objects import SourceObject
+        if issubclass(ann, SourceObject):
+            return "sourceobject"
         if issubclass(ann, ExplainableObject):
             return "object"
         if issubclass(ann, ModelingObject):
